@@ -97,6 +97,10 @@ type chunkRegions struct {
 	sigs       [][2]int // per chunk header incl. the final zero chunk
 	trailerVal [2]int
 	trailerSig [2]int
+	// names of the two trailer lines, and the whole signature line (without its CRLF)
+	trailerValName [2]int
+	trailerSigName [2]int
+	trailerSigLine [2]int
 }
 
 func locateChunks(body []byte) chunkRegions {
@@ -127,8 +131,11 @@ func locateChunks(body []byte) chunkRegions {
 					from := off + len(name) + 1
 					if name == "x-amz-trailer-signature" {
 						cr.trailerSig = [2]int{from, from + len(val)}
+						cr.trailerSigName = [2]int{off, off + len(name)}
+						cr.trailerSigLine = [2]int{off, off + len(t)}
 					} else {
 						cr.trailerVal = [2]int{from, from + len(val)}
+						cr.trailerValName = [2]int{off, off + len(name)}
 					}
 				}
 				off += len(ln)
@@ -185,6 +192,9 @@ type c30Spec struct {
 	authOn   bool
 	anon     bool // send without credentials
 	presign  bool // credentials in the query string (presigned URL); the chunk chain is seeded by X-Amz-Signature
+	// spellings of case-insensitive tokens ("" / 0 = default), see verifx.SigSpec
+	trailerDecl, trailerLine, chunkedWord string
+	nameCase                              int
 	mode     string
 	trailer  string
 	payload  []byte
@@ -228,7 +238,8 @@ func runC30(args []string) {
 			keyNo++
 			key := fmt.Sprintf("obj-%d-%d %s", caseNo, keyNo, label)
 			spec := &verifx.SigSpec{Method: "PUT", Host: c30Host, Bucket: c30Bucket, Key: key, Mode: sp.mode, Trailer: sp.trailer,
-				Presign: sp.presign && !sp.anon, Expires: 900, Body: sp.payload, Chunks: sp.chunks, AltFrame: sp.altFrame, Cred: sp.cred, Region: verifx.SigRegion, SignTime: time.Now(),
+				Presign: sp.presign && !sp.anon, Expires: 900, Body: sp.payload,
+				TrailerDecl: sp.trailerDecl, TrailerLine: sp.trailerLine, ChunkedWord: sp.chunkedWord, NameCase: sp.nameCase, Chunks: sp.chunks, AltFrame: sp.altFrame, Cred: sp.cred, Region: verifx.SigRegion, SignTime: time.Now(),
 				Header: [][2]string{{"Content-Type", "application/octet-stream"}}}
 			if sp.gzip {
 				spec.Header = append(spec.Header, [2]string{"Content-Encoding", "gzip"})
@@ -294,6 +305,56 @@ func runC30(args []string) {
 		}, false), false)
 		send("mut-trailer-sig", flipAt(func(cr chunkRegions) ([2]int, bool) { return cr.trailerSig, cr.trailerSig[1] > 0 }, false), false)
 		send("mut-trailer-cksum", flipAt(func(cr chunkRegions) ([2]int, bool) { return cr.trailerVal, cr.trailerVal[1] > 0 }, true), false)
+		// single-point and same-length mutations of the trailer *section* (the body length, usually a
+		// signed Content-Length, stays what it was): a letter of a line name replaced by another
+		// letter (not a change of case), the signature line blanked out
+		renameAt := func(region func(cr chunkRegions) [2]int) func(w *verifx.Wire) bool {
+			return func(w *verifx.Wire) bool {
+				rg := region(locateChunks(w.Body))
+				if rg[1] <= rg[0] {
+					return false
+				}
+				for n := 0; n < 16; n++ {
+					i := rg[0] + r.Intn(rg[1]-rg[0])
+					c := w.Body[i]
+					if c >= 'a' && c <= 'z' || c >= 'A' && c <= 'Z' {
+						if c|0x20 == 'q' {
+							w.Body[i] = 'j'
+						} else {
+							w.Body[i] = 'q'
+						}
+						return true
+					}
+				}
+				return false
+			}
+		}
+		send("mut-trailer-sig-name", renameAt(func(cr chunkRegions) [2]int { return cr.trailerSigName }), false)
+		send("mut-trailer-cksum-name", renameAt(func(cr chunkRegions) [2]int { return cr.trailerValName }), false)
+		send("mut-trailer-sig-line-blanked", func(w *verifx.Wire) bool {
+			rg := locateChunks(w.Body).trailerSigLine
+			if rg[1] <= rg[0] {
+				return false
+			}
+			for i := rg[0]; i < rg[1]; i++ {
+				w.Body[i] = ' '
+			}
+			return true
+		}, false)
+		send("mut-trailer-cksum-name-case", func(w *verifx.Wire) bool { // same name, other letter case: not a modification
+			rg := locateChunks(w.Body).trailerValName
+			if rg[1] <= rg[0] {
+				return false
+			}
+			for i := rg[0]; i < rg[1]; i++ {
+				if c := w.Body[i]; c >= 'a' && c <= 'z' {
+					w.Body[i] = c - 32
+				} else if c >= 'A' && c <= 'Z' {
+					w.Body[i] = c + 32
+				}
+			}
+			return true
+		}, false)
 		out.End()
 	}
 
@@ -343,6 +404,23 @@ func runC30(args []string) {
 	}
 	emit(n, c30Spec{authOn: true, presign: true, mode: verifx.ModeStream, payload: big[:20000], chunks: []int{9000, 11}, cred: verifx.SigCreds[0]})
 	n++
+	// case-insensitive tokens spelled otherwise: the x-amz-trailer declaration, the trailer line
+	// name, the aws-chunked token, the header field names — in every trailer mode and configuration
+	for _, authOn := range []bool{true, false} {
+		for _, m := range []string{verifx.ModeStreamTrailer, verifx.ModeStreamUnsignedTrailer} {
+			for i, decl := range []string{"X-Amz-Checksum-CRC32", "X-Amz-Checksum-Sha256", "  x-AMZ-checksum-crc32c ", "X-AMZ-CHECKSUM-CRC64NVME"} {
+				low := strings.ToLower(strings.TrimSpace(decl))
+				sp := c30Spec{authOn: authOn, mode: m, trailer: low, trailerDecl: decl, payload: payload, chunks: []int{11, 13},
+					cred: verifx.SigCreds[i%2], nameCase: i % 3, presign: i == 3}
+				if i%2 == 1 {
+					sp.trailerLine = strings.TrimSpace(decl)
+					sp.chunkedWord = "AWS-Chunked"
+				}
+				emit(n, sp)
+				n++
+			}
+		}
+	}
 
 	sizes := []int{1, 2, 15, 16, 17, 255, 256, 257, 1000, 4096}
 	for c := 0; c < f.Cases; c++ {
@@ -391,6 +469,12 @@ func runC30(args []string) {
 			sp.altFrame = r.Chance(1, 5)
 		}
 		sp.gzip = r.Chance(1, 12)
+		if r.Chance(1, 3) {
+			var t verifx.SigSpec
+			t.Trailer, t.Mode = sp.trailer, sp.mode
+			t.Respell(r)
+			sp.trailerDecl, sp.trailerLine, sp.chunkedWord, sp.nameCase = t.TrailerDecl, t.TrailerLine, t.ChunkedWord, t.NameCase
+		}
 		emit(seed, sp)
 	}
 	out.Flush()
